@@ -6,27 +6,24 @@ use jxlw::modular::*;
 
 pub fn main(_args: &crate::Args) {
     crate::util::install_panic_hook();
-    for pred in 0..14u32 {
-        for (w, h) in [(1usize, 1usize), (2, 2), (5, 3), (9, 7), (17, 4)] {
-            for use_prefix in [true, false] {
-                let img = ImageHeader::simple(w as u32, h as u32, true, 8);
-                let ch = Channel::from_fn(w, h, |x, y| ((x * 37 + y * 91 + x * y * 13) % 256) as i32);
-                let mut spec = ModularFrameSpec::new(FrameHeader::modular_lossless(&img), vec![ch]);
-                spec.tree = Node::leaf(pred);
-                spec.code.use_prefix = use_prefix;
-                let f = write_modular_frame(&img, &spec);
-                let bytes = write_codestream(&img, &Sel::default(), &[f.bytes.clone()]);
-                match decode_planes(&bytes, &DecOpts::default()) {
-                    Ok(kf) => {
-                        let ok = matches!(&kf[0][0], Plane::Int { data, .. } if *data == f.channels[0].data);
-                        if !ok {
-                            println!("MISMATCH pred={pred} {w}x{h} prefix={use_prefix}: got {:?} want {:?}", kf[0][0], f.channels[0].data);
-                        }
-                    }
-                    Err(e) => println!("ERR pred={pred} {w}x{h} prefix={use_prefix}: {e}  bytes={}", crate::report::hex(&bytes)),
-                }
+    for gs in 0..3u32 {
+    for (w, h) in [(17usize, 17usize), (130, 5), (5, 130), (130, 130), (257,129), (300,70), (200,200), (129,1)] {
+        let img = ImageHeader::simple(w as u32, h as u32, true, 8);
+        let ch = Channel::from_fn(w, h, |x, y| ((x * 37 + y * 91 + x * y * 13) % 256) as i32);
+        let mut fh = FrameHeader::modular_lossless(&img);
+        fh.group_size_shift = gs;
+        let mut spec = ModularFrameSpec::new(fh, vec![ch]);
+        spec.tree = Node::leaf(5);
+        spec.code.use_prefix = false;
+        let f = write_modular_frame(&img, &spec);
+        let bytes = write_codestream(&img, &Sel::default(), &[f.bytes.clone()]);
+        match decode_planes(&bytes, &DecOpts::default()) {
+            Ok(kf) => {
+                let ok = matches!(&kf[0][0], Plane::Int { data, .. } if *data == f.channels[0].data);
+                println!("gs{gs} {w}x{h} sections={}: {}", f.num_sections, if ok { "ok" } else { "MISMATCH" });
             }
+            Err(e) => println!("gs{gs} {w}x{h} sections={}: ERR {}", f.num_sections, &e[e.len().saturating_sub(40)..]),
         }
     }
-    println!("bringup done");
+    }
 }
